@@ -219,6 +219,13 @@ def relations(rng, tier, rpt):
             ("b32np", lambda: Base32Decoder.Decode(Base32Encoder.EncodeNoPadding(b, CUSTOM_ALPHABETS[0]), CUSTOM_ALPHABETS[0])),
             ("bits", lambda: bytes(Bech32BaseUtils.ConvertFromBase32(Bech32BaseUtils.ConvertToBase32(b)))),
             ("hex", lambda: BytesUtils.FromHexString(BytesUtils.ToHexString(b))),
+            # the text is the standard base-16 text, and both documented argument types (str, bytes) and both letter cases decode back
+            ("hex-standard-text", lambda: b if BytesUtils.ToHexString(b) == "".join("%02x" % x for x in b) else BytesUtils.ToHexString(b)),
+            ("hex-bytes-argument", lambda: BytesUtils.FromHexString(BytesUtils.ToHexString(b).encode("ascii"))),
+            ("hex-upper-case", lambda: BytesUtils.FromHexString(BytesUtils.ToHexString(b).upper())),
+            ("hex-upper-case-bytes", lambda: BytesUtils.FromHexString(BytesUtils.ToHexString(b).upper().encode("ascii"))),
+            ("binary-text", lambda: BytesUtils.FromBinaryStr(BytesUtils.ToBinaryStr(b, 8 * len(b)), 2 * len(b)) if b else b),
+            ("binary-text-bytes-argument", lambda: BytesUtils.FromBinaryStr(BytesUtils.ToBinaryStr(b, 8 * len(b)).encode("ascii"), 2 * len(b)) if b else b),
         ]
         for name, f in checks:
             try:
@@ -230,5 +237,5 @@ def relations(rng, tier, rpt):
                             "relation": "decode(encode(b)) != b on the implementation",
                             "input": b.hex(), "impl_output": r.hex() if isinstance(r, bytes) else str(r),
                             "model_output": b.hex(), "no_failing_input": False})
-    rpt.extra["impl_roundtrips"] = n * 8
+    rpt.extra["impl_roundtrips"] = n * 14
     return bad[:10]
